@@ -24,7 +24,7 @@ m = {
     "setup_cmd": "./check --setup",
     "hooks": {
         "guard": "verif",
-        "enable": "go test -overlay /verif/work/inv/<id>-<pid>/overlay/overlay.json -tags verif: harness files (zz_verif_*_test.go, the overlay-only packages internal/verifworld and internal/verifcfg, two tag-guarded non-test helpers: internal/layer2/zz_verif_hooks.go and internal/bgp/frr/zz_verif_interp.go, and a docker-less TestMain for internal/bgp/frr) are injected by overlay from /verif/harness; no hook is committed in /repo",
+        "enable": "go test -overlay /verif/work/inv/<id>-<pid>/overlay/overlay.json -tags verif: harness files (zz_verif_*_test.go, the overlay-only packages internal/verifworld and internal/verifcfg, four tag-guarded non-test helpers: internal/layer2/zz_verif_hooks.go, internal/bgp/frr/zz_verif_interp.go, internal/k8s/zz_verif_wiring.go and internal/k8s/controllers/zz_verif_filters.go, and a docker-less TestMain for internal/bgp/frr) are injected by overlay from /verif/harness; no hook is committed in /repo",
         "baseline_off_cmd": "for m in $(cat /w/out/gomods.txt); do MF=$(cd /repo/$m && . /w/out/goenv.sh && gomodflag); (cd /repo/$m && go test $MF -json -vet=off -count=1 -timeout 25m ./...); done",
         "source_commits": [],
         "add_only": True,
